@@ -335,17 +335,27 @@ func runC18(t *testing.T, x c18Scn, verbose bool) (c vfCase) {
 					takeExpected(r, what)
 				case "rshort":
 					s.o.settle(250 * time.Millisecond)
-					if len(expect) == 0 || x.Unord {
+					if len(expect) == 0 {
 						continue
 					}
-					sz := expect[0].size + op.Buf
+					// on an unordered stream any outstanding message may be the next one: the buffer is
+					// made shorter than the smallest of them
+					ref := expect[0].size
+					if x.Unord {
+						for _, m := range expect {
+							if m.size < ref {
+								ref = m.size
+							}
+						}
+					}
+					sz := ref + op.Buf
 					if op.Buf > 0 {
 						sz = op.Buf
 					}
 					if sz < 0 {
 						sz = 0
 					}
-					if sz >= expect[0].size {
+					if sz >= ref {
 						continue
 					}
 					r := startRead(sz)
@@ -358,7 +368,7 @@ func runC18(t *testing.T, x c18Scn, verbose bool) (c vfCase) {
 						break
 					}
 					if !errors.Is(r.err, io.ErrShortBuffer) {
-						c.fail("short-buffer-no-error", "%s: read into %d bytes for a %d byte message returned n=%d err=%v", what, sz, expect[0].size, r.n, r.err)
+						c.fail("short-buffer-no-error", "%s: read into %d bytes for a message of at least %d bytes returned n=%d err=%v", what, sz, ref, r.n, r.err)
 						break
 					}
 					r2 := startRead(1 << 17)
